@@ -122,3 +122,18 @@ pub fn put_port_header(ev: &mut [u8], code: u8, id: i32, port: u8, follower: boo
 	ev[5] = port;
 	ev[6] = follower as u8;
 }
+
+/// Two occupied ports; the column sets live in the caller's typed array.
+pub fn two_port_state(
+	v: Version,
+	store: &mut [MPortData; 2],
+	ports: [Port; 2],
+) -> core::mem::ManuallyDrop<ParseState> {
+	let mut frames = MFrame::with_capacity(0, v, &[]);
+	let vec = unsafe { Vec::from_raw_parts(store.as_mut_ptr(), 2, 2) };
+	forget(core::mem::replace(&mut frames.ports, vec));
+	let mut idx = [0usize; 4];
+	idx[ports[0] as usize] = 0;
+	idx[ports[1] as usize] = 1;
+	core::mem::ManuallyDrop::new(ParseState::verif_from_parts(table_for(v), 0, mk_start(v), frames, idx))
+}
